@@ -203,14 +203,27 @@ namespace lst {
 		if(pending) port=p;
 		return port;
 	}
+	static int good_lfd=-1;
 	static int good_port()
 	{
 		static int port=-1;
 		if(port>=0) return port;
 		port=0;
 		int p=0;
-		if(make_listener(128,p)>=0) port=p;
+		good_lfd=make_listener(128,p);
+		if(good_lfd>=0) { ::fcntl(good_lfd,F_SETFL,::fcntl(good_lfd,F_GETFL,0)|O_NONBLOCK); port=p; }
 		return port;
+	}
+	// take the established connection out of the good listener's queue (it would fill up over a long stream of cases);
+	// the server side stays open until the scenario ends, so the client sees neither EOF nor hang-up
+	static int good_accept()
+	{
+		for(int spin=0;spin<2000;spin++) {
+			int a=::accept(good_lfd,0,0);
+			if(a>=0) return high(a);
+			std::this_thread::sleep_for(std::chrono::milliseconds(1));
+		}
+		return -1;
 	}
 }
 
@@ -420,6 +433,7 @@ static void do_op(scenario *sc,op_t const &o)
 		if(o.name=="xg") {
 			for(int spin=0;spin<2000 && !lst::connected(s->native());spin++) std::this_thread::sleep_for(std::chrono::milliseconds(1));
 			if(!lst::connected(s->native())) sc->bad=true;
+			else { int a=lst::good_accept(); if(a<0) sc->bad=true; else sc->clients.push_back(a); }
 		}
 		else if(lst::connected(s->native())) sc->bad=true;
 	}
